@@ -82,6 +82,11 @@ def cases(tier, seed):
                 "seed": int(rng.integers(1 << 30)),
             }
             c["rand_w"] = bool(r % 2 == 0 and r > 0) or bool(rng.random() < 0.3)
+            # a caller that makes several updates from ONE sampled batch: the same experiences object is handed to every
+            # learn step of the case (each step is judged against the values the caller put in)
+            c["reuse_batch"] = bool(r % 3 == 1)
+            if c["reuse_batch"]:
+                c["steps"] = max(2, c["steps"])
             if algo in ("DDPG", "TD3"):
                 c["share_encoders"] = bool(r % 2)
                 # asymmetric / per-dimension action bounds and target-policy smoothing noise large enough to leave them
@@ -246,17 +251,31 @@ def _rainbow_extras(exp, n, mode, rng):
     return exp
 
 
-def _do_learn(agent, case, batch, nbatch, wseed):
-    """Calls the real learn() in the algorithm's own format; returns its return value."""
+def _do_learn(agent, case, batch, nbatch, wseed, cache=None, extras_seed=None):
+    """Calls the real learn() in the algorithm's own format; returns its return value.
+    cache: dict that keeps the experiences objects of the first call (the caller re-uses its sampled batch)."""
     from vf import zoo
 
     algo = case["algo"]
-    exp = zoo.as_experiences(agent, batch)
+    if cache is not None and "exp" in cache:
+        exp = cache["exp"]
+    else:
+        exp = zoo.as_experiences(agent, batch)
+        if cache is not None:
+            cache["exp"] = exp
     if algo == "RainbowDQN":
         mode = case["var"]["mode"]
-        rng = np.random.default_rng(wseed)
-        exp = _rainbow_extras(exp, batch["n"], mode, rng)
-        n_exp = zoo.as_experiences(agent, nbatch) if mode in ("nstep", "per_nstep", "combined") else None
+        rng = np.random.default_rng(wseed if extras_seed is None else extras_seed)
+        if cache is None or not cache.get("extras"):
+            exp = _rainbow_extras(exp, batch["n"], mode, rng)
+            if cache is not None:
+                cache["extras"] = True
+        if cache is not None and "n_exp" in cache:
+            n_exp = cache["n_exp"]
+        else:
+            n_exp = zoo.as_experiences(agent, nbatch) if mode in ("nstep", "per_nstep", "combined") else None
+            if cache is not None:
+                cache["n_exp"] = n_exp
         if mode == "combined" and "idxs" not in exp.keys():
             import torch
 
@@ -430,6 +449,7 @@ def run_case(case):
         return rec.result()
 
     any_due = False
+    reuse = {}
     masked_ran = False
     leaves_cmp = 0
     for step in range(case["steps"]):
@@ -445,10 +465,15 @@ def run_case(case):
                 rec.extra["mid_sequence_operation_failed"] = f"{type(e).__name__}: {str(e)[:100]}"
                 break
         n = agent.batch_size
-        dv = _done_vector(case["done"], n, rng)
-        bseed = int(rng.integers(1 << 30))
-        batch = zoo.make_batch(agent, n=n, seed=bseed, done=dv)
-        nbatch = zoo.make_batch(agent, n=n, seed=bseed + 1, done=_done_vector(case["done"], n, rng))
+        if case.get("reuse_batch") and step > 0 and reuse.get("n") == n:
+            batch, nbatch, dv = reuse["batch"], reuse["nbatch"], reuse["dv"]
+            rec.hit("learn_steps_on_a_reused_batch_object")
+        else:
+            dv = _done_vector(case["done"], n, rng)
+            bseed = int(rng.integers(1 << 30))
+            batch = zoo.make_batch(agent, n=n, seed=bseed, done=dv)
+            nbatch = zoo.make_batch(agent, n=n, seed=bseed + 1, done=_done_vector(case["done"], n, rng))
+            reuse = {"n": n, "batch": batch, "nbatch": nbatch, "dv": dv, "cache": {}}
         try:
             ref = copy.deepcopy(agent)
             twin = copy.deepcopy(agent) if dv.any() and not _has_batch_norm(agent) else None
@@ -465,7 +490,9 @@ def run_case(case):
         agentops.seed_all(wseed)
         st = agentops.rng_state()
         try:
-            ret = _do_learn(agent, case, batch, nbatch, wseed)
+            # (importance weights of a re-used prioritised batch stay those of its first use)
+            xseed = reuse.setdefault("xseed", wseed) if case.get("reuse_batch") else None
+            ret = _do_learn(agent, case, batch, nbatch, wseed, cache=reuse["cache"] if case.get("reuse_batch") else None, extras_seed=xseed)
         except CaseTimeout:
             raise
         except Exception as e:
@@ -554,7 +581,7 @@ def run_case(case):
                 b2 = _scramble_next_obs(batch, np.random.default_rng(bseed + 7))
                 nb2 = _scramble_next_obs(nbatch, np.random.default_rng(bseed + 8))
                 agentops.set_rng_state(st)
-                ret2 = _do_learn(twin, case, b2, nb2, wseed)
+                ret2 = _do_learn(twin, case, b2, nb2, wseed, extras_seed=xseed)
                 rec.hit("terminal_masking_checks")
                 masked_ran = True
                 l1, l2 = _returned_losses(ret, case), _returned_losses(ret2, case)
